@@ -71,7 +71,27 @@ def flat(x):
         return [y for e in x for y in flat(e)]
     return [x]
 
+def gen_wide_case(rng):
+    """wide coefficients and 16-bit point values with every point ON or right next to a row's hyperplane
+    (|a.x| far beyond 2^24 .. 2^53: anything but exact integer arithmetic misclassifies some of them)"""
+    n = rng.randint(1, 4)
+    bnds = [(-32768, 32767)] * n
+    def pt():
+        return [rng.choice([32767, -32768, 32766, rng.randint(-32768, 32767)]) for _ in range(n)]
+    rank = rng.choice([1, 2, 2, 3])
+    gsz = rng.randint(1, 2)
+    pts = pt() if rank == 1 else [pt() for _ in range(rng.randint(1, 3))] if rank == 2 else [[pt() for _ in range(gsz)] for _ in range(rng.randint(1, 2))]
+    flatpts = [pts] if rank == 1 else pts if rank == 2 else [p for g in pts for p in g]
+    M = []
+    for _ in range(rng.randint(1, 3)):
+        a = [rng.choice([rng.randint(-2 ** 31, 2 ** 31), rng.randint(-40000, 40000), 1, -1, 0]) for _ in range(n)]
+        x = rng.choice(flatpts)
+        M.append([sum(c * v for c, v in zip(a, x)) + rng.choice([0, 0, 1, -1])] + a)
+    return M, bnds, "wide_boundary", rank, pts
+
 def gen_case(rng):
+    if rng.random() < 0.12:
+        return gen_wide_case(rng)
     M, bnds, prof = gen_system(rng, rng.choice(["bool", "bigm", "mixed", "mixed", "zeros", "forcing"]))
     if rng.random() < 0.04:
         M, prof = [], "no_rows"          # a polyhedron without rows: every point is satisfied, nothing separates
